@@ -130,13 +130,21 @@ def vc_getitem(H, cls='OperatorDict'):
             hit = ctx.decide(cached)           # which branch this path took (already decided on this path)
             ctx.oblige('C10: the cache is tested with the key tuple itself', bool(tests and same(tests[0][1], keys_in)))
             if hit:
-                ctx.oblige('C10: cached pattern -> nothing is generated, compiled or stored',
+                # the performance clauses belong to C10 alone: regenerating a cached pattern costs time but returns an equally
+                # valid function, so the other properties that share this contract must not fire on it
+                ctx.oblige('only(C10): cached pattern -> nothing is generated, compiled or stored',
                            not gens and not others and not stores
                            and not _events(ctx, 'call', lambda e: 'multivector' in repr(e[1]) or e[1] is W['wrapper']))
-                ctx.oblige('C10: cached pattern -> the stored (keys_out, func) is returned',
-                           same(r, Rec('item', W['opdict'], keys_in)) or ('cached_entry' in W and same(r, W['cached_entry'])))
-                return r
-            ctx.oblige(f'C10: new pattern -> {gen_name} runs exactly once', len(gens) == 1 and not others)
+                stored_back = same(r, Rec('item', W['opdict'], keys_in)) or ('cached_entry' in W and same(r, W['cached_entry']))
+                ctx.oblige('only(C10): cached pattern -> the stored (keys_out, func) is returned', stored_back)
+                ctx.oblige('cached pattern -> the stored (keys_out, func) or a pair generated afresh for the same key tuples is returned',
+                           stored_back or (len(gens) == 1 and same(r, W['gen_result'])))
+                if not gens:
+                    return r
+                # regenerated although cached: the flow clauses below apply to that generation as well
+            ctx.oblige(f'only(C10): new pattern -> {gen_name} runs exactly once', len(gens) == 1 and not others)
+            if not hit:
+                ctx.oblige(f'new pattern -> {gen_name} generates the function', len(gens) >= 1)
             if len(gens) != 1:
                 return r
             g = gens[0]
